@@ -5,7 +5,7 @@ import common
 
 def run(tier, replay=None):
     res = common.Result('C13', tier, 'exploration')
-    elen, nrandom = (7, 40000) if tier == 'quick' else (9, 500000)
+    elen, nrandom = (7, 40000) if tier == 'quick' else (9, 2000000)
     d = common.scratch_dir()
     tot_h = 0
     stats = {}
